@@ -6,6 +6,23 @@ CHECKS = {
    text="All pairs (p,q) from every 3-neighbourhood of the breakpoints {0,L,U,2^33-1} plus an exhaustive lattice, and every Add distance class, are executed on the real functions and compared with a modular-arithmetic reference; exhaustive within that finite abstraction, justified by piecewise linearity.",
    note="Assumes the functions stay piecewise linear with breakpoints on the enumerated lattice; Go compiler and runtime trusted.", design="3/C15"),
 }
+CHECKS.update({
+ "C01": dict(engine="enum", technique="exhaustive enumeration of all 2^24 header values x every accessor x every in-range field value on the real code, judged by a bit-writer field table",
+   text="Every getter, setter and copy helper is executed on all 2^24 values of header bytes 1-3 (and all 8192 PIDs on all byte-1 values) and compared with field masks derived from an independent ISO 13818-1 bit-writer layout; the other 184 bytes come from a pattern set and are compared bit for bit. Exhaustive over the bytes the accessors can read.",
+   note="Accessors are assumed not to read bytes 4..187 in a value-dependent way beyond the 7 fill patterns; Go toolchain trusted.", design="3/C01"),
+ "C04": dict(engine="enum", technique="bounded-exhaustive enumeration of sparse bit patterns x all 300 extensions x prior buffer contents on the real codecs vs. bit-writer layouts",
+   text="PCR/PTS codecs are bit-slice moves plus a divide by 300: every <=2-bit (PCR base) / <=3-bit (PTS) pattern, complements and stride sweeps, times all 300 extensions and 4 prior buffer contents, are executed and compared with reference encodings built by a generic bit writer; plus reserved/marker-bit flips, decoder agreement and end-to-end paths through adaptation fields and PES headers.",
+   note="Adequacy rests on each output bit depending on one input bit (checked by the <=3-bit patterns and strides); not every one of 2^33*300 values is executed.", design="3/C04"),
+ "C13": dict(engine="enum", technique="exhaustive short strings + affine basis (zero and all single-bit strings) for every length 1..1024 on the real function vs. a canonical bitwise CRC",
+   text="All strings of length 0..3, and for every length 1..1024 the zero, all-ones and all single-bit strings (which determine the GF(2)-affine map of a fixed-init CRC for that length), plus all two-bit strings at three lengths, are run through ComputeCRC and compared with an independent canonical CRC-32/MPEG-2; the residue identity is checked on each.",
+   note="Completeness beyond the enumerated strings relies on the function remaining affine per length (guarded by exhaustive short strings and two-bit strings).", design="3/C13"),
+ "C19": dict(engine="enum", technique="exhaustive enumeration of the finite abstraction (256x256 types x event/PTS/segment conditions x sub-segment fields) on real descriptors vs. a frozen rule table",
+   text="CanClose is evaluated on real descriptor objects for all 256x256 type pairs and every combination of the conditions the relation may depend on (and of fields it must not depend on), against a frozen transcription of the documented table with independently written rule semantics; Equal is checked for symmetry, transitivity, reflexivity-iff-PTS and congruence on a 768-element grid against the 9216-element closing grid.",
+   note="The documented table is read as the table in scte35/segmentationdescriptor.go at the pinned commit, transcribed and frozen in ref/scte35rules.go.", design="3/C19"),
+ "C20": dict(engine="enum", technique="exhaustive enumeration of all 256 stream types and of all 256 tags x well-formed descriptor bodies on the real decoders vs. tables frozen from the statement",
+   text="All 256 stream_type codes are checked through the lookup, the elementary-stream constructor and a decoded PMT; every descriptor decoder is run on all 256 tags x exhaustive/gridded well-formed bodies (all 64x256 ISO-639 bodies, all 128x32 Dolby Vision profile/level pairs, all TTML purpose bytes, bitrate grid or all 2^21 values) both directly and through a decoded PMT.",
+   note="Decoders whose tag equals the descriptor tag are only called on bodies well-formed for that tag (malformed bodies belong to C05).", design="3/C20"),
+})
 NOT_APPLICABLE = {}
 def main():
     props=[json.loads(l)['id'] for l in open('/verif/properties.jsonl')]
